@@ -21,6 +21,37 @@ from engine.lin import Aff, Store, fm_infeasible
 from engine.common import need, AnalysisBroken
 
 STEP_FN = '_advance_parsing'
+CMP_FN = '_cmp_name'
+
+
+def cmp_stub(st, args):
+    """summary of _cmp_name(a, b) used as an oracle: the sign of the result is left open (three forks) and recorded together
+    with what the two operands are (a name stored in the state array / a local bbuf / the name being looked up)"""
+    def kind(a):
+        if isinstance(a, Ptr):
+            if a.region == 'STATE':
+                return 'level'
+            if a.region == 'SN':
+                return 'wanted'
+            if a.region.startswith('L'):
+                return 'local'
+            return a.region
+        return '?'
+    kinds = (kind(args[0]), kind(args[1]))
+    out = []
+    for sign in (-1, 0, 1):
+        s = st.copy()
+        s.tags['cmps'] = s.tags.get('cmps', ()) + ((kinds, sign),)
+        if 'calls' in s.tags or s.tags.get('record_cmp_in_calls'):
+            s.tags['calls'] = s.tags.get('calls', ()) + (('cmp', kinds, sign),)
+        if sign == 0:
+            v = Int(32, Aff(0))
+        elif sign > 0:
+            v = s.fresh_int('cmp:pos', 32, 1, (1 << 31) - 1)
+        else:
+            v = s.fresh_int('cmp:neg', 32, 1 << 31, (1 << 32) - 1)
+        out.append((s, v))
+    return out
 SPEC = os.path.join(os.path.dirname(os.path.dirname(os.path.abspath(__file__))), 'spec', 'tokens.json')
 
 
@@ -136,6 +167,12 @@ class StepHooks(LibHooks):
     def on_step_backs(self, fn, head, backs):
         if fn.name == STEP_FN:
             self.backs.extend(backs)
+
+    def stub_call(self, st, name, args, ins):
+        """optional oracle for the name comparison: three outcomes (less / equal / greater), recorded on the path"""
+        if name != CMP_FN or not (self.K or {}).get('stubcmp'):
+            return None
+        return cmp_stub(st, args)
 
     # own record of the state-array cells written during the iteration (the J bookkeeping of LibHooks resets its own)
     def on_store(self, st, r, off, size, val, ins):
@@ -341,6 +378,7 @@ def outcome(C, hooks, st, kind, ret, phi_sf):
         eff[(lvl, fname)] = _desc(st, hit[2], names) if hit is not None else ('?', 'gone')
     rec['eff'] = sorted(eff.items(), key=repr)
     rec['sig'] = st.tags.get('sig', ())
+    rec['cmps'] = st.tags.get('cmps', ())
     # path condition over the loop-head symbols
     ivl = {}
     for s_, o in names.items():
